@@ -388,4 +388,36 @@ def plan(ctx):
                             bound='all byte strings of length <= %d, all masks (or none), flags 0 and HEX_ONLY; text <= %d characters' % (n, 2 + 5 * n),
                             cbmc_flags=['--unwind', str(unwind), '--unwinding-assertions'], timeout=900 if n == 3 else 3600, min_post=4,
                             replay=RT('roundtrip')))
+    # hex dump: the two iovec read cursors (memory safety / cursor discipline for any partition of the data)
+    from vf import lex as _lex
+    ftext = src.text(CC)
+    _, fbody, _, _ = _lex.find_def(ftext, r'void format_data\(\s*function<void\(const void\*, size_t\)> write_data,\s*const struct iovec\* iovs,[^)]*\)', 'format_data core')
+    ui = Unit(ctx, 'iov_cursors')
+    ui.raw('#include "contracts/C09_iov.h"\n')
+    HDR = ('void %s(uint8_t* %s, const struct iovec* iovs, size_t num_iovs, const struct iovec* prev_iovs, size_t num_prev_iovs, size_t* current_iov_index_p, '
+           'size_t* current_iov_bytes_p, size_t* prev_iov_index_p, size_t* prev_iov_bytes_p, uint8_t line_bytes, uint8_t line_invalid_start_bytes)')
+    PRE = ' size_t current_iov_index = *current_iov_index_p, current_iov_bytes = *current_iov_bytes_p, prev_iov_index = *prev_iov_index_p, prev_iov_bytes = *prev_iov_bytes_p;\n'
+    OUT = ' *current_iov_index_p = current_iov_index; *current_iov_bytes_p = current_iov_bytes; *prev_iov_index_p = prev_iov_index; *prev_iov_bytes_p = prev_iov_bytes; '
+    for fname, buf, which, intro in (('format_data_read_current', 'line_buf', 'current', r'for \(size_t x = 0; x < line_bytes; x\+\+\)(?=\s*\{\s*while \(current_iov_bytes)'),
+                                     ('format_data_read_prev', 'prev_line_buf', 'prev', r'for \(size_t x = 0; x < line_bytes; x\+\+\)(?=\s*\{\s*while \(prev_iov_bytes)')):
+        head, body, _, _ = _lex.find_block(fbody, intro, 'cursor loop (%s)' % which)
+        loop = head + ' ' + body
+        loop = ui._post(loop, 'format_data:' + which, [
+            Rule(r'reinterpret_cast<const uint8_t\*>\(\s*(\w+)\[(\w+)\]\.iov_base\)\[(\w+)\]', r'c9_iov_byte(\1, \2, \3)', count=None, regex=True),
+            Rule(r'\(\(const uint8_t\*\)\(\s*(\w+)\[(\w+)\]\.iov_base\)\)\[(\w+)\]', r'c9_iov_byte(\1, \2, \3)', count=None, regex=True)],
+            True, '', {1: '__CPROVER_assigns(x, verif_exc, %s_iov_index, %s_iov_bytes, __CPROVER_object_whole(%s))\n'
+                          '__CPROVER_loop_invariant(x <= line_bytes && verif_exc == 0 && current_iov_index < num_iovs && prev_iov_index < num_prev_iovs)\n'
+                          '__CPROVER_decreases(line_bytes - x)' % (which, which, buf),
+                       2: '__CPROVER_assigns(verif_exc, %s_iov_index, %s_iov_bytes)\n'
+                          '__CPROVER_loop_invariant(verif_exc == 0 && current_iov_index < num_iovs && prev_iov_index < num_prev_iovs)\n'
+                          '__CPROVER_decreases((%s) - %s_iov_index)' % (which, which, 'num_iovs' if which == 'current' else 'num_prev_iovs', which)}, 2)
+        # exits by exception must not skip writing the cursor back (the C++ locals are the enclosing function's)
+        ui.parts.append(HDR % (fname, buf) + '\n{' + PRE + loop + '\n' + OUT + '}\n')
+        ui.functions.append({'file': CC, 'cxx_header': 'format_data(...) :: read-%s-data cursor loop' % which, 'c_header': HDR % (fname, buf), 'line': 0})
+    ui.write()
+    ctx.functions_under_contract += ui.functions
+    for fname, which in (('format_data_read_current', 'current'), ('format_data_read_prev', 'prev')):
+        groups.append(Group(name='format_data.iov_cursor[%s]' % which, harness='harness/C09/iov.c', entry='h_read_' + which, function='format_data (read %s data cursor)' % which,
+                            enforce=fname, replace=['c9_iov_byte'], loops=True, kind='loop-contract', object_bits=12,
+                            clause_note='contracts/C09_iov.h: every element index is inside the array it is applied to, every byte offset inside that element, cursor stays inside its array'))
     return groups
